@@ -14,7 +14,11 @@ LEVEL_TEXT = ("Forest-shaped factor graphs are built by construction (union-find
               "until every computation has completed 2*diameter + 2*SAME_COUNT + 4 rounds, A-Max-Sum until quiescence, "
               "with damping 0, noise 0, every start_messages mode and stability 0.1 (default) or 0, under generated "
               "start/delivery schedules. Oracle: the selected assignment equals the unique brute-force optimum and "
-              "no handler raised. Sampling of inputs x schedules.")
+              "no handler raised. Half of the cases are trees of binary variables tied by soft "
+              "equalities with preferences of very different strengths (hub, chain ends, one opponent). With stability "
+              "> 0 a monitor checks on the wire that a computation goes silent towards a neighbour only within the "
+              "threshold of the last message it sent there and after SAME_COUNT such sends; only then is a wrong "
+              "result attributed to the listed cut-off finding. Sampling of inputs x schedules.")
 LEVEL_NOTE = ("Trusted: SimNet FIFO model, brute-force oracle. 'Enough messages' is a bounded number of rounds well "
               "beyond the factor-graph diameter; unique optimum is a precondition enforced by discarding.")
 RULE = ("case = forest DCOP + algorithm + parameters + schedule; discarded unless the optimum is unique; non-trivial = "
